@@ -727,6 +727,12 @@ def run_hdd(spec, out):
             check_reads(out, stream, model, spec["requests"] if guid is None else spec["requests"][:3],
                         "hdd-chain" if guid is None else "hdd-chain-guid")
             _close_hdd(stream)
+            # what the descriptor object exposes is what DiskDescriptor.xml says, also after images were located and opened
+            files_now = sorted(im.file for st_ in hdd.descriptor.storage_data.storages for im in st_.images)
+            files_xml = sorted(im["file"] for st_ in desc_storages for im in st_["images"])
+            if files_now != files_xml:
+                out.fail("mismatch|hdd-image-file-after-open", f"image File values exposed after open(): {files_now[:3]} != stored {files_xml[:3]}")
+                return
     finally:
         if restore_cwd:
             os.chdir(restore_cwd)
